@@ -332,6 +332,17 @@ class Fn:
             self._defs = d
         return self._defs
 
+    def mut_borrowed(self):
+        """Locals whose address is taken mutably (`&mut x`, directly): their value can change behind the analysis' back."""
+        if getattr(self, '_mutb', None) is None:
+            out = set()
+            for b in self.blocks:
+                for s in b['stmts']:
+                    if s['k'] == 'assign' and s['rv']['k'] in ('ref', 'rawptr') and s['rv'].get('m') not in ('shared', 'fake') and not s['rv']['pl']['p']:
+                        out.add(s['rv']['pl']['l'])
+            self._mutb = out
+        return self._mutb
+
     def local_name(self, l):
         return self.locals[l].get('name')
 
